@@ -76,6 +76,23 @@ def bytes_to_blocks(
     if isinstance(block_type, Function) and block_type.docstring is not None:
         found_constants.found_index(0)
 
+    # First find all the args, in the order they are used, so that we know which ones
+    # need their index saved, before creating the instructions, so that
+    # every instruction which uses an arg has the same index saved for it.
+    for opcode, arg, _, _, next_offset in _parse_bytes(b):
+        to_arg(
+            opcode,
+            arg,
+            next_offset,
+            found_names,
+            found_varnames,
+            freevars,
+            found_cellvars,
+            found_constants,
+        )
+    for found in (found_names, found_varnames, found_cellvars, found_constants):
+        found.find_additional_args()
+
     for opcode, arg, n_args, offset, next_offset in _parse_bytes(b):
 
         # Compute the jump targets, initially with just the byte offset
@@ -381,21 +398,36 @@ class ToArgs(Generic[T]):
     _from_args: FromArgs[T]
     # All the indices which were found
     _found: set[int] = field(default_factory=set)
+    # The indices which would be encoded at a different index, if it was not recorded
+    _wrong_position: set[int] = field(default_factory=set)
+    # The indices which were not found, set once all the others have been found
+    _additional: Optional[list[int]] = None
 
     def found_index(self, index: int) -> tuple[T, Optional[int]]:
         arg = self._args[index]
-        self._found.add(index)
-        wrong_position = self._from_args.next_index(arg) != index
-        self._from_args.add(arg, index if wrong_position else None)
-        return arg, index if wrong_position else None
+        # Once we have found all the args, we know which are in the wrong position
+        if self._additional is None:
+            self._found.add(index)
+            wrong_position = self._from_args.next_index(arg) != index
+            self._from_args.add(arg, index if wrong_position else None)
+            if wrong_position:
+                self._wrong_position.add(index)
+        return arg, index if index in self._wrong_position else None
 
     def __len__(self) -> int:
         return len(self._args)
 
+    def find_additional_args(self) -> None:
+        """
+        Find all the args which were not found yet, after all the others have been.
+        """
+        additional = [i for i in range(len(self._args)) if i not in self._found]
+        for i in additional:
+            self.found_index(i)
+        self._additional = additional
+
     def additional_args(self) -> Iterable[tuple[T, Optional[int]]]:
-        for i in range(len(self._args)):
-            if i not in self._found:
-                yield self.found_index(i)
+        return map(self.found_index, self._additional or [])
 
 
 @dataclass
